@@ -119,13 +119,38 @@ func (g *g) q() string {
 	return im.LocalName() + "." + g.pick(exported)
 }
 
+// qt returns a type expression built around a qualified identifier.
+func (g *g) qt() string {
+	switch g.t.Draw(12) {
+	case 0:
+		return "*" + g.q()
+	case 1:
+		return "[]" + g.q()
+	case 2:
+		return fmt.Sprintf("map[%s]%s", g.q(), g.q())
+	case 3:
+		return "chan<- " + g.q()
+	case 4:
+		return fmt.Sprintf("func(%s, ...%s) (%s, error)", g.q(), g.q(), g.q())
+	case 5:
+		return g.q() + "[int, " + g.q() + "]"
+	case 6:
+		return fmt.Sprintf("struct {\n%s // embedded\nX, Y %s `json:\"x\"`\n}", g.q(), g.q())
+	case 7:
+		return fmt.Sprintf("interface {\n%s\n~int | %s\n}", g.q(), g.q())
+	case 8:
+		return fmt.Sprintf("[%s]%s", g.q(), g.q())
+	}
+	return g.q()
+}
+
 func (g *g) comment() string {
 	words := []string{"TODO", "note", "fixme", "returns the value", "see below", "x", "deprecated", "nolint"}
 	return g.pick(words)
 }
 
 func (g *g) expr(depth int) string {
-	n := 9
+	n := 13
 	if depth > 2 {
 		n = 4
 	}
@@ -156,8 +181,16 @@ func (g *g) expr(depth int) string {
 		return fmt.Sprintf("%s + %s", g.expr(depth+1), g.expr(depth+1))
 	case 7:
 		return fmt.Sprintf("&%s{}", g.q())
-	default:
+	case 8:
 		return fmt.Sprintf("func(%s %s) %s { return %s }", g.pick(locals), g.q(), g.q(), g.expr(depth+1))
+	case 9:
+		return fmt.Sprintf("%s.(%s)", g.pick(locals), g.qt())
+	case 10:
+		return fmt.Sprintf("(%s)(%s)[%s:%s]", g.qt(), g.expr(depth+1), g.q(), g.pick(locals))
+	case 11:
+		return fmt.Sprintf("(*%s).%s", g.q(), g.pick(exported))
+	default:
+		return fmt.Sprintf("<-%s + -%s", g.q(), g.q())
 	}
 }
 
@@ -222,10 +255,10 @@ func (g *g) decl() string {
 		return fmt.Sprintf("var v%d = %s", g.nvar, g.expr(0))
 	case 1:
 		g.nvar++
-		return fmt.Sprintf("// v%d is a variable.\n// %s\nvar v%d %s = %s", g.nvar, g.comment(), g.nvar, g.q(), g.expr(0))
+		return fmt.Sprintf("// v%d is a variable.\n// %s\nvar v%d %s = %s", g.nvar, g.comment(), g.nvar, g.qt(), g.expr(0))
 	case 2:
 		g.ntype++
-		return fmt.Sprintf("// T%d %s\ntype T%d struct {\nA %s // %s\nB *%s\n\n// %s\nC map[string]%s\n}", g.ntype, g.comment(), g.ntype, g.q(), g.comment(), g.q(), g.comment(), g.q())
+		return fmt.Sprintf("// T%d %s\ntype T%d struct {\nA %s // %s\nB *%s\n\n// %s\nC map[string]%s\n}", g.ntype, g.comment(), g.ntype, g.qt(), g.comment(), g.q(), g.comment(), g.qt())
 	case 3:
 		g.ntype++
 		return fmt.Sprintf("type T%d interface {\n%s\nM(%s) %s\n}", g.ntype, g.q(), g.q(), g.q())
@@ -238,7 +271,7 @@ func (g *g) decl() string {
 	case 6:
 		g.nfunc++
 		g.ntype++
-		return fmt.Sprintf("type R%d %s\n\n// m%d does things.\nfunc (r *R%d) m%d(p %s, q ...%s) (res %s, err error) {\n%s\nreturn\n}", g.ntype, g.q(), g.nfunc, g.ntype, g.nfunc, g.q(), g.q(), g.q(), g.stmt(0))
+		return fmt.Sprintf("type R%d %s\n\n// m%d does things.\nfunc (r *R%d) m%d(p %s, q ...%s) (res %s, err error) {\n%s\nreturn\n}", g.ntype, g.qt(), g.nfunc, g.ntype, g.nfunc, g.qt(), g.q(), g.qt(), g.stmt(0))
 	default:
 		g.nfunc++
 		n := 1 + g.t.Draw(4)
